@@ -295,7 +295,11 @@ theorem collectArgs_item (T : PTables) (sp rest : Buf) (start : Nat) (st : PStat
   cases hh : rest.head? with
   | none => rfl
   | some t =>
-    simp only [hbr t hh, Bool.false_eq_true, if_false]
+    have hnv : txtIsNV t "[" = false := by
+      have := hbr t hh
+      simp only [txtIs] at this
+      simp only [txtIsNV, this, Bool.and_false]
+    simp only [hnv, Bool.false_eq_true, if_false]
     rfl
 
 theorem expandArguments_item (T : PTables) (fuel : Nat) (sp rest : Buf) (start : Nat) (st : PState)
